@@ -184,7 +184,8 @@ def setStatic (w : World) (f : Nat) (r : Rec) (R : Nat) : Rec :=
 
 def setOverride (w : World) (f : Nat) (r : Rec) (R : Nat) : Rec :=
   let r := updateStamp w f r R
-  { r with failed := none, isOverride := true }
+  -- the recorded checksum described the generated content, not the hand-made one (repaired in /repo, 5acd6b9)
+  { r with failed := none, isOverride := true, csum := none }
 
 /-- `File::deps`: rows of the `Deps` table for `f`, in the order SQLite yields them (ascending
 rowid of the source), unless the file is not (or no longer) redo's. -/
@@ -345,6 +346,9 @@ def runScript (E : Engine) (_d : Defects) (cx : Ctx) (t : Nat) (sc : Script) (w 
       let data : Content := if sc.stamp = 1 then out else [sc.stamp - 2]
       let w := addKnown w t
       setRec w t (stampRec (w.recs t) cx.runid data)
+    -- a kill after `redo-stamp` (which commits its marks on the target's record in its own transaction) and
+    -- before the script ends: step `#ifchange + 1`, only for scripts that stamp
+    if sc.stamp != 0 && decide (cx.crash = some (t, sc.ifchange.length + 1)) then (CRASHED, none, w) else
     ((sc.exit : Int), if sc.outMode = 2 then none else some out, w)
 
 /-- `BuildJob::record_new_state` (the `Commit` decision specialised to a script that did not
@@ -431,7 +435,9 @@ def buildJob (E : Engine) (d : Defects) (cx : Ctx) (fuel : Nat) (t : Nat) (w : W
     else
       -- `redo-unlocked t deps…` : two `redo-ifchange` runs in the caller's environment
       let ts := if w.oobRev then ts.eraseDups.reverse else ts.eraseDups
-      match E.ifchangeCmd { cx with noOob := true, unlocked := false, isRedo := false,
+      -- (the caller holds `t`'s lock meanwhile: `t` is under construction for everything below — repaired in
+      -- /repo, 330eb41; before, a dependency leading back to `t` waited for that lock for ever)
+      match E.ifchangeCmd { cx with noOob := true, unlocked := false, isRedo := false, cycles := t :: cx.cycles,
                                     parent := if d.oobRecordsDepsOnCaller then cx.parent else none } ts w with
       | (0, w) =>
         let second := if d.oobRebuildsDepsNotTarget then ts else [t]
